@@ -21,6 +21,9 @@ def run(ctx):
     stages.mgr_family(ctx, ["C11."], ["all"], lambda s: s["stim"]["kind"] in ("Pause", "Resume") or s["stim"]["msg"]["kind"] == "Update", quick_n=3000, model=not ctx.quick(), sims=False, invariants=["M_C11_Own"], keep=lambda l: any(k in l for k in ('"kind":"Pause"', '"kind":"Resume"', '"kind":"Update"', '"kind":"UpdateValidation"')) or
                       # every inbound response / request that meets a channel whose local side is paused (the counterparty's "not paused" must not lift the local pause)
                       (('"ip":true' in l or '"rp":true' in l) and any(k in l for k in ('"kind":"RecvResponse"', '"kind":"OnResponseReceived"', '"kind":"RecvRequest"', '"kind":"OnRequestReceived"'))))
+    # two-node replays of Sys.tla behaviours on two real managers: C11 rules of SysJudge and of the manager judge on every step of either node
+    from props import c01 as _c01
+    _c01.sys_replay(ctx, prefixes=["C11."], n_quick=10, n_thorough=60)
     if not ctx.quick():
         # the repository's own 275 tests, run with the trace hook: every transition they execute is judged
         stages.repo_suite_traces(ctx, ["C11."])
